@@ -165,6 +165,40 @@ pub fn zero_sized_generators<T, N: ArrayLength, const R: usize>() {
     log_is_identity(n);
 }
 
+/// zero-sized element types on either side of map / zip / fold / clone (owned, borrowed and boxed receivers): the *calls* are the only
+/// observable effect, and a loop over a pointer range `start..end` never runs for them
+#[derive(Debug, PartialEq)]
+pub struct ZTok;
+impl Clone for ZTok {
+    fn clone(&self) -> ZTok {
+        unsafe { log(ZNEXT); ZNEXT += 1; }
+        ZTok
+    }
+}
+pub fn zero_sized_ops<T, N: ArrayLength, const R: usize>() {
+    let n = N::USIZE;
+    let form = any_upto(10);
+    kani_cover!(form == 10);
+    kani_cover!(form == 3);
+    let z: GenericArray<(), N> = GenericArray::generate(|_| ());
+    let s: GenericArray<u32, N> = GenericArray::generate(|i| i as u32);
+    reset_log();
+    match form {
+        0 => { let m: GenericArray<u32, N> = z.map(|_| { let k = logn() as u32; log(k); k }); if n > 0 { let i = any_upto(n - 1); assert!(m[i] as usize == i, "map result at the wrong index"); } }
+        1 => { let m: GenericArray<(), N> = s.map(|x| log(x)); assert!(m.len() == n); }
+        2 => { let m: GenericArray<(), N> = z.map(|_| { let k = logn() as u32; log(k) }); assert!(m.len() == n); }
+        3 => { let r = z.fold(0u32, |acc, _| { log(acc); acc + 1 }); assert!(r as usize == n, "fold over zero-sized elements skipped calls"); }
+        4 => { let m: GenericArray<(), N> = (&s).map(|x| log(*x)); assert!(m.len() == n); }
+        5 => { let m: GenericArray<(), N> = s.zip(z, |x, _| log(x)); assert!(m.len() == n); }
+        6 => { let m: GenericArray<u32, N> = z.zip(s, |_, y| { log(y); y }); if n > 0 { let i = any_upto(n - 1); assert!(m[i] as usize == i); } }
+        7 => { let b = Box::new(z); let r = b.fold(0u32, |acc, _| { log(acc); acc + 1 }); assert!(r as usize == n); }
+        8 => { let zt: GenericArray<ZTok, N> = GenericArray::generate(|_| ZTok); unsafe { ZNEXT = 0 }; let c = zt.clone(); assert!(c.len() == n); }
+        9 => { let r = (&z).fold(0u32, |acc, _| { log(acc); acc + 1 }); assert!(r as usize == n); }
+        _ => { let m: Box<GenericArray<(), N>> = Box::new(s).map(|x| log(x)); assert!(m.len() == n); }
+    }
+    log_is_identity(n);
+}
+
 macro_rules! c08_lattice {
     ($body:ident; $($name:ident: $N:ty, $u:literal;)*) => {
         pub mod $body {
@@ -180,6 +214,7 @@ pub mod q {
     c08_lattice! { zip_map_tracked; n0: U0, 3; n2: U2, 5; n4: U4, 7; }
     c08_lattice! { clone_default; n0: U0, 3; n1: U1, 4; n4: U4, 7; }
     c08_lattice! { zero_sized_generators; n0: U0, 3; n1: U1, 4; n3: U3, 6; }
+    c08_lattice! { zero_sized_ops; n0: U0, 3; n1: U1, 4; n3: U3, 6; }
 }
 pub mod t {
     c08_lattice! { generate_map_fold; n5: U5, 8; n6: U6, 9; n7: U7, 10; n8: U8, 11; }
@@ -187,4 +222,5 @@ pub mod t {
     c08_lattice! { zip_map_tracked; n1: U1, 4; n3: U3, 6; n5: U5, 8; n8: U8, 11; }
     c08_lattice! { clone_default; n2: U2, 5; n3: U3, 6; n8: U8, 11; }
     c08_lattice! { zero_sized_generators; n2: U2, 5; n5: U5, 8; n8: U8, 11; }
+    c08_lattice! { zero_sized_ops; n2: U2, 5; n5: U5, 8; n8: U8, 11; }
 }
